@@ -10,6 +10,7 @@ import (
 	"go/types"
 	"sort"
 	"strings"
+	"unicode/utf8"
 
 	"golang.org/x/tools/go/ssa"
 )
@@ -71,7 +72,12 @@ type Closure struct {
 }
 
 // Cell is the target of an Alloc of non-struct type.
-type Cell struct{ V Value }
+type Cell struct {
+	V Value
+	// Elem: the variable's type, when the cell was made by the interpreted code itself (`new(I)` used as a witness
+	// of the interface I)
+	Elem types.Type
+}
 
 // Array is the target of an Alloc of array type.
 type Array struct{ Elems []Value }
@@ -259,7 +265,9 @@ type Interp struct {
 	InScope   func(*ssa.Function) bool
 	GoInline  bool // run goroutines synchronously at their go statement
 	// OnGo, when set, is told when an inlined goroutine starts (enter) and when it has run to completion
-	OnGo     func(g *ssa.Go, enter bool)
+	OnGo func(g *ssa.Go, enter bool)
+	// OnChan, when set, is told of every completed send and receive
+	OnChan   func(op string, ch *Chan)
 	Trace    []string // branch decisions, for witnesses
 	Deferred [][]func()
 	CurFn    Value // for dynamic calls: the evaluated function value, visible to Oracle.Call
@@ -489,6 +497,9 @@ func (ip *Interp) CallFunction(fn *ssa.Function, args []Value, bind []Value) Val
 					undecided("a send that blocks until somebody receives (the sequential model cannot schedule the receiver)")
 				}
 				ch.Q = append(ch.Q, ip.eval(f, x.X))
+				if ip.OnChan != nil {
+					ip.OnChan("send", ch)
+				}
 			case *ssa.Go:
 				if !ip.GoInline {
 					undecided("go statement in %s", fn)
@@ -634,6 +645,12 @@ func isPtrToStruct(t types.Type) bool {
 	}
 	_, ok = p.Elem().Underlying().(*types.Struct)
 	return ok
+}
+
+// StrIter is the iterator of a range over a text.
+type StrIter struct {
+	S string
+	I int
 }
 
 // MapIter is the iterator of a range over a map (keys in sorted order: one fixed enumeration).
@@ -1109,7 +1126,7 @@ func (ip *Interp) step(f *frame, v ssa.Value) Value {
 			}
 			return a
 		}
-		return &Cell{V: ip.ZeroOf(et)}
+		return &Cell{V: ip.ZeroOf(et), Elem: et}
 	case *ssa.FieldAddr:
 		base := ip.eval(f, x.X)
 		st := x.X.Type().Underlying().(*types.Pointer).Elem().Underlying().(*types.Struct)
@@ -1223,6 +1240,9 @@ func (ip *Interp) step(f *frame, v ssa.Value) Value {
 			if len(ch.Q) > 0 {
 				v := ch.Q[0]
 				ch.Q = ch.Q[1:]
+				if ip.OnChan != nil {
+					ip.OnChan("recv", ch)
+				}
 				if x.CommaOk {
 					return Tuple{v, Bool(true)}
 				}
@@ -1403,6 +1423,9 @@ func (ip *Interp) step(f *frame, v ssa.Value) Value {
 		}
 		return val
 	case *ssa.Range:
+		if str, isStr := ip.eval(f, x.X).(Str); isStr {
+			return &StrIter{S: string(str)} // range over a text: its runes with their byte positions
+		}
 		m, ok := ip.eval(f, x.X).(*MapVal)
 		if !ok {
 			undecided("range over %s in %s", Show(ip.eval(f, x.X)), f.fn)
@@ -1421,6 +1444,15 @@ func (ip *Interp) step(f *frame, v ssa.Value) Value {
 		sort.Strings(it.Keys)
 		return it
 	case *ssa.Next:
+		if si, isStr := ip.eval(f, x.Iter).(*StrIter); isStr {
+			if si.I >= len(si.S) {
+				return Tuple{Bool(false), Int(0), Int(0)}
+			}
+			r, w := utf8.DecodeRuneInString(si.S[si.I:])
+			at := si.I
+			si.I += w
+			return Tuple{Bool(true), Int(int64(at)), Int(int64(r))}
+		}
 		it, ok := ip.eval(f, x.Iter).(*MapIter)
 		if !ok {
 			undecided("next on %s in %s", Show(ip.eval(f, x.Iter)), f.fn)
